@@ -75,5 +75,6 @@ fn main() {
   }
   for (k, v) in &groups {
     println!("{:5} {k}\n        e.g. {}", v.len(), v[0]);
+    if std::env::var("ALL").is_ok() { for n in v { println!("          - {n}"); } }
   }
 }
